@@ -20,8 +20,8 @@ import time
 
 ROOT = os.path.dirname(os.path.abspath(__file__))
 KANI_DIR = os.path.join(ROOT, "kani")
-EVID_DIR = os.path.join(ROOT, "evidence")
-REPLAY_DIR = os.path.join(ROOT, "replays")
+EVID_DIR = os.environ.get("VERIF_EVIDENCE_DIR") or os.path.join(ROOT, "evidence")
+REPLAY_DIR = os.environ.get("VERIF_REPLAY_DIR") or os.path.join(ROOT, "replays")
 CACHE = os.path.join(ROOT, ".cache")
 REPO = "/repo"
 
@@ -103,6 +103,8 @@ def run_kani(pid, harnesses, jobs, tag):
     cmd = ["cargo", "kani", "-Z", "stubbing", "-Z", "unstable-options", "--exact",
            "--output-format", "terse", "--export-json", out_json,
            "--harness-timeout", f"{cap}s", "-j", str(jobs)]
+    if os.environ.get("VERIF_TARGET_DIR"):
+        cmd += ["--target-dir", os.environ["VERIF_TARGET_DIR"]]
     for h in harnesses:
         cmd += ["--harness", h["full"]]
     t0 = time.time()
@@ -136,8 +138,10 @@ def index_results(data):
     errs = {c["harness_id"]: c for c in data.get("error_details", [])}
     for r in data.get("verification_results", {}).get("results", []):
         hid = r["harness_id"]
-        if errs.get(hid, {}).get("has_errors"):
-            r = dict(r, status="Error:" + str(errs[hid].get("error_type", errs[hid])))
+        e = errs.get(hid, {})
+        if e.get("has_errors") and not any(c.get("status") == "Failure" for c in r.get("checks", [])):
+            # CBMC crashed / ran out of memory / timed out: there is no per-check verdict to trust
+            r = dict(r, status="Error:" + str(e.get("error_type")) + "/" + str(e.get("failed_properties_type")))
         res[hid] = {"status": r.get("status"), "duration_ms": r.get("duration_ms", 0),
                     "checks": r.get("checks", []), "stats": stats.get(hid, {}),
                     "props": props.get(hid, {})}
@@ -338,7 +342,7 @@ def main():
             row = {"harness": h["full"], "kind": h["kind"], "tier": h["tier"], "clause": h["text"],
                    "verdict": verdict, "edge": bool(h["edge"])}
             if r:
-                st = r["stats"]
+                st = r["stats"] or {}
                 row.update({"time_s": round(r["duration_ms"] / 1000.0, 2),
                             "checks": len(r["checks"]),
                             "vccs": st.get("vccs_generated", 0), "vccs_remaining": st.get("vccs_remaining", 0),
